@@ -48,7 +48,14 @@ class _RandomProxy:
         return getattr(self._real, name)
 
 
-def make_dataset(n, n_classes, shapes):
+def soft_label(idx, n_classes):
+    import torch
+    v = torch.full((n_classes,), 0.2 / max(1, n_classes - 1))
+    v[int(idx) % n_classes] = 0.8
+    return v if n_classes > 1 else torch.ones(1)
+
+
+def make_dataset(n, n_classes, shapes, soft=False):
     import torch
     from kappadata.datasets.kd_dataset import KDDataset
 
@@ -65,12 +72,16 @@ def make_dataset(n, n_classes, shapes):
             return (torch.arange(numel, dtype=torch.float32).view(*shp) + 1.0) * (7.0 ** (idx + 1))
 
         def getitem_class(self, idx, ctx=None):
+            if soft:
+                return soft_label(idx, n_classes)  # e.g. a label-smoothing wrapper below the mix wrapper
             return int(idx) % n_classes
 
         def getshape_class(self):
             return (n_classes,)
 
-    return DS()
+    d = DS()
+    d.soft = soft
+    return d
 
 
 def padcut(x2, shape):
@@ -92,8 +103,13 @@ def explain(ds, i, x_out, y_out, n_classes, unify):
         return None, f"label shape {tuple(y_out.shape)}"
     if float(y_out.min()) < -1e-7 or abs(float(y_out.sum()) - 1) > 1e-5:
         return None, f"label {y_out.tolist()} not non-negative with sum one"
-    ei = torch.zeros(n_classes)
-    ei[ci] = 1
+    def vec(c):
+        if torch.is_tensor(c):
+            return c.clone().float()
+        v = torch.zeros(n_classes)
+        v[c] = 1
+        return v
+    ei = vec(ci)
     sols = []
     if torch.allclose(x_out, xi, rtol=0, atol=TOL * float(xi.abs().max())) and torch.allclose(y_out, ei, atol=TOL):
         sols.append(("untouched", None, 1.0))
@@ -113,8 +129,7 @@ def explain(ds, i, x_out, y_out, n_classes, unify):
         scale = max(float(xi.abs().max()), float(xj.abs().max()))
         if not torch.allclose(x_out, w * xi + (1 - w) * xj, rtol=0, atol=TOL * scale):
             continue
-        ej = torch.zeros(n_classes)
-        ej[ds.getitem_class(j)] = 1
+        ej = vec(ds.getitem_class(j))
         if torch.allclose(y_out, w * ei + (1 - w) * ej, atol=1e-4):
             sols.append(("mixed", j, round(w, 4)))
         else:
@@ -127,10 +142,11 @@ def run_one(cfg, i, mode, chooser):
     import torch
     import kappadata.wrappers.sample_wrappers.kd_mix_wrapper as mod
     from kappadata.wrappers.mode_wrapper import ModeWrapper
-    n, n_classes, shape_name, p, alpha = cfg
+    n, n_classes, shape_name, p, alpha = cfg[:5]
+    soft = len(cfg) > 5 and cfg[5]
     shapes = SHAPES[shape_name]
     unify = shape_name.startswith("differ")
-    ds = make_dataset(n, n_classes, shapes)
+    ds = make_dataset(n, n_classes, shapes, soft)
     rngs = []
 
     def factory(seed):
@@ -184,11 +200,12 @@ def seeded_agreement(cfg, p):
     import torch
     from kappadata.wrappers.sample_wrappers.kd_mix_wrapper import KDMixWrapper
     from kappadata.wrappers.mode_wrapper import ModeWrapper
-    n, n_classes, shape_name, prob, alpha = cfg
+    n, n_classes, shape_name, prob, alpha = cfg[:5]
+    soft = len(cfg) > 5 and cfg[5]
     unify = shape_name.startswith("differ")
     for seed in range(8):
         def mk():
-            return KDMixWrapper(make_dataset(n, n_classes, SHAPES[shape_name]), mixup_p=prob, mixup_alpha=alpha,
+            return KDMixWrapper(make_dataset(n, n_classes, SHAPES[shape_name], soft), mixup_p=prob, mixup_alpha=alpha,
                                 mixup_unify_shapes_mode="pad_or_cut_end" if unify else None, seed=seed)
         for i in range(n):
             p.evaluations += 1
@@ -223,15 +240,58 @@ def all_cfgs(tier):
                 for prob in (0.3, 1.0):
                     for alpha in ((1.0,) if tier == "quick" else (0.5, 1.0)):
                         out.append((n, nc, sh, prob, alpha))
+    # datasets whose labels already are probability vectors (label smoothing below the mix wrapper)
+    for n in (2, 3):
+        for nc in (2, 3):
+            for prob in (0.3, 1.0):
+                out.append((n, nc, "equal_vec", prob, 1.0, True))
     return out
 
 
 MODES = ("x class", "class x", "x", "class", "index x class", "x index class")
 
 
+def one_hot_utils(p):
+    """kappadata/utils/one_hot.py directly: indices become one-hot rows, vectors / matrices that already are encodings pass
+    through unchanged (also soft ones)."""
+    import torch
+    from kappadata.utils.one_hot import to_one_hot_vector, to_one_hot_matrix
+    for C in (1, 2, 3, 4):
+        for c in range(C):
+            for y in (c, torch.tensor(c)):
+                p.evaluations += 1
+                try:
+                    v = to_one_hot_vector(y, n_classes=C)
+                    exp = torch.zeros(C)
+                    exp[c] = 1
+                    if v.dtype != torch.float32 or not torch.equal(v, exp):
+                        p.violation("C11:one_hot_utils:index_not_encoded", dict(one_hot=True), f"to_one_hot_vector({y!r}, {C}) = {v}")
+                except Exception as e:
+                    p.violation(f"C11:one_hot_utils:exception:{type(e).__name__}", dict(one_hot=True), f"to_one_hot_vector({y!r}, {C}): {e!r}")
+        for soft in (soft_label(0, C), torch.full((C,), 1.0 / C), torch.eye(C)[C - 1]):
+            p.evaluations += 1
+            try:
+                v = to_one_hot_vector(soft.clone(), n_classes=C)
+                if not torch.allclose(v, soft.float()):
+                    p.violation("C11:one_hot_utils:vector_not_passed_through", dict(one_hot=True), f"to_one_hot_vector({soft.tolist()}) = {v.tolist()}")
+                m = to_one_hot_matrix(torch.stack([soft, soft]), n_classes=C)
+                if not torch.allclose(m, torch.stack([soft, soft]).float()):
+                    p.violation("C11:one_hot_utils:matrix_not_passed_through", dict(one_hot=True), f"{m.tolist()}")
+                idx = torch.arange(C)
+                m2 = to_one_hot_matrix(idx, n_classes=C)
+                if not torch.equal(m2, torch.eye(C)):
+                    p.violation("C11:one_hot_utils:index_not_encoded", dict(one_hot=True), f"to_one_hot_matrix({idx.tolist()}) = {m2.tolist()}")
+            except Exception as e:
+                p.violation(f"C11:one_hot_utils:exception:{type(e).__name__}", dict(one_hot=True), repr(e))
+    p.observe(("one_hot_utils",))
+
+
 def task(args):
     cfgs, modes = args
     p = Partial()
+    if cfgs == "one_hot":
+        one_hot_utils(p)
+        return p
     for cfg in cfgs:
         n = cfg[0]
         for i in range(n):
@@ -245,7 +305,7 @@ def task(args):
                 for ch, (kind, info) in explore(guarded):
                     p.evaluations += 1
                     if kind is not None:
-                        p.violation(f"C11:{kind}|shapes={'differ' if cfg[2].startswith('differ') else 'equal'}|p={cfg[3]}"
+                        p.violation(f"C11:{kind}|shapes={'differ' if cfg[2].startswith('differ') else 'equal'}{'|soft_labels' if len(cfg) > 5 else ''}|p={cfg[3]}"
                                     f"|mode={'joint' if ('x' in mode.split() and 'class' in mode.split()) else 'single'}",
                                     dict(cfg=cfg, i=i, mode=mode, choices=ch.choices), f"cfg={cfg} i={i} mode='{mode}': {kind}: {info}")
                     else:
@@ -259,7 +319,7 @@ def run(run):
     cfgs = all_cfgs(run.tier)
     chunk = 1
     modes = MODES if run.tier == "thorough" else MODES[:5]
-    run.pmap(task, [(cfgs[i:i + chunk], modes) for i in range(0, len(cfgs), chunk)])
+    run.pmap(task, [(cfgs[i:i + chunk], modes) for i in range(0, len(cfgs), chunk)] + [("one_hot", modes)])
     run.extra.update(bounds=dict(n="1..4", classes="2..4", shapes=list(SHAPES), p=[0.3, 1.0], unit_alphabet=UNIT,
                                  beta_alphabet=BETA, partner="full range", seeds_real="0..7"), configs=len(cfgs))
     run.assumptions += [
@@ -270,6 +330,10 @@ def run(run):
 
 def replay(case):
     cfg = tuple(case["cfg"])
+    if case.get("one_hot"):
+        p = Partial()
+        one_hot_utils(p)
+        return None if not p.violations else "; ".join(m for _, m in p.violations.values())
     if case.get("seeded"):
         p = Partial()
         seeded_agreement(cfg, p)
